@@ -545,6 +545,20 @@ def run(chk, prog):
             if x.get("k") == "Bin" and x["op"] == "=" and any(C.is_call(y, name="advance", cls="TimeLine")
                                                                for y in C.walk(x["b"])):
                 flagvars.add(C.ref_key(x["a"]))
+            if x.get("k") == "Decl":
+                for d in x["d"]:
+                    if d.get("init") is not None and any(C.is_call(y, name="advance", cls="TimeLine")
+                                                         for y in C.walk(d["init"])):
+                        flagvars.add(("local", d["id"], d["n"]))
+        # a variable that receives such a flag unchanged carries it as well (has_next_step = timeline_continues)
+        grew = True
+        while grew:
+            grew = False
+            for x in C.walk_stmt(lp["body"]):
+                if x.get("k") == "Bin" and x["op"] == "=" and C.ref_key(x["b"]) in flagvars and \
+                        C.ref_key(x["a"]) not in flagvars:
+                    flagvars.add(C.ref_key(x["a"]))
+                    grew = True
         conj = []
 
         def conjuncts(e):
